@@ -252,8 +252,42 @@ class FullEngine(Engine):
         return out
 
     def ev_JoinedStr(self, e, p):
-        # f-strings: only used for messages/labels in the functions under contract; value not modelled unless str-typed pieces
-        return [(p, VOpaque("fstring"))]
+        """f-string: exact when every piece is a constant or a string-valued expression without format spec; otherwise an
+        opaque value (messages of exceptions, labels)"""
+        res = [(p, [])]
+        for part in e.values:
+            nxt = []
+            for (q, acc) in res:
+                if acc is None:
+                    nxt.append((q, None))
+                    continue
+                if isinstance(part, ast.Constant):
+                    nxt.append((q, acc + [z3.StringVal(part.value)]))
+                elif isinstance(part, ast.FormattedValue) and part.format_spec is None and part.conversion == -1 and self.is_pure([part.value]):
+                    try:
+                        rs = self.eval(part.value, q)
+                    except Unsupported:
+                        nxt.append((q, None))
+                        continue
+                    for (r, v) in rs:
+                        if isinstance(v, VStr):
+                            nxt.append((r, acc + [v.term]))
+                        elif isinstance(v, VInt):
+                            nxt.append((r, acc + [z3.IntToStr(v.term)]))
+                        else:
+                            nxt.append((r, None))
+                else:
+                    nxt.append((q, None))
+            res = nxt
+        out = []
+        for (q, acc) in res:
+            if acc is None:
+                out.append((q, VOpaque("fstring")))
+            elif not acc:
+                out.append((q, VStr(z3.StringVal(""))))
+            else:
+                out.append((q, VStr(acc[0] if len(acc) == 1 else z3.Concat(*acc))))
+        return out
 
     def ev_UnaryOp(self, e, p):
         if isinstance(e.op, ast.Not):
@@ -302,6 +336,8 @@ class FullEngine(Engine):
             p.st.write_where("setmem", lambda ad, aref=aref, bref=bref, st0=st0: (
                 T.conj(T.eq(ad[0], aref), st0.read("setmem", bref, ad[1])), z3.BoolVal(True)))
             return [(p, None)]
+        if isinstance(a, VStr) and isinstance(b, VStr) and isinstance(op, ast.Add):
+            return [(p, VStr(z3.Concat(a.term, b.term)))]
         if isinstance(a, (VOpaque, VStr)) or isinstance(b, (VOpaque, VStr)):
             return [(p, VOpaque("concat"))]
         raise Unsupported(f"binary {type(op).__name__} on {type(a).__name__}, {type(b).__name__}")
@@ -665,6 +701,17 @@ class FullEngine(Engine):
         for (q, recv) in self.eval(e.value, p):
             if isinstance(recv, VRaise):
                 out.append((q, recv))
+                continue
+            if isinstance(recv, VStr):
+                for (r, lo) in bound(sl.lower, q, z3.IntVal(0)):
+                    for (r2, hi) in bound(sl.upper, r, z3.Length(recv.term)):
+                        n = z3.Length(recv.term)
+
+                        def clamps(b, n=n):
+                            b1 = T.ite(b < 0, b + n, b)
+                            return T.ite(b1 < 0, z3.IntVal(0), T.ite(b1 > n, n, b1))
+                        lo2, hi2 = clamps(lo), clamps(hi)
+                        out.append((r2, VStr(z3.SubString(recv.term, lo2, T.ite(hi2 > lo2, hi2 - lo2, z3.IntVal(0))))))
                 continue
             seq, ecn = self.iter_seq(q, recv) if isinstance(recv, (VList, VSeq, VOwned)) else (None, None)
             if seq is None:
@@ -1186,6 +1233,8 @@ class FullEngine(Engine):
             for (r, side) in self.fork(q, rz, f"cb:{cb.family}raises"):
                 if side:
                     out.append((r, VRaise("UserExc", cb.family)))
+                elif cb.family.startswith("s") and len(refs) == 1:
+                    out.append((r, VStr(T.cbs1(cb.term, refs[0]))))      # the str() of what the callback returns
                 elif cb.family.startswith("v") and val is not None:
                     out.append((r, VRef(val, None, "opaque")))
                 else:
@@ -1212,6 +1261,10 @@ class FullEngine(Engine):
                 return out
         if isinstance(recv, VList):
             seq = p.st.elems(recv.ref)
+            if name == "append" and len(args) == 1 and isinstance(args[0], VStr):
+                ss = p.st.read("selems", recv.ref)
+                p.st.write("selems", recv.ref, z3.Concat(ss, z3.Unit(args[0].term)))
+                return [(p, NONE_V)]
             if name == "append" and len(args) == 1:
                 p.st.write("elems", recv.ref, T.snoc(seq, self.ref_of(args[0])))
                 return [(p, NONE_V)]
@@ -1230,6 +1283,8 @@ class FullEngine(Engine):
                     q.env["$rest"] = VSeq(rest)          # ghost local: what remained after the last pop
                     out.append((q, VRef(x, recv.elem_cname, "obj" if recv.elem_cname else "opaque")))
                 return out
+        if isinstance(recv, VStr) and name == "join" and len(args) == 1 and isinstance(args[0], VList):
+            return [(p, VStr(T.SJoin(recv.term, p.st.read("selems", args[0].ref))))]
         if isinstance(recv, VSet):
             if name == "add" and len(args) == 1:
                 p.st.write("setmem", (recv.ref, self.ref_of(args[0])), z3.BoolVal(True))
@@ -1317,6 +1372,11 @@ class FullEngine(Engine):
             return [(p, VConst(("range", start, stop, step)))]
         if name == "enumerate" and len(args) == 1:
             return [(p, VConst(("enumerate", args[0])))]
+        if name == "repr" and len(args) == 1 and isinstance(args[0], VRef):
+            return [(p, VStr(T.py_repr(args[0].term)))]
+        if name == "sorted" and len(args) == 1 and set(kw) == {"key"} and isinstance(kw["key"], VCallback):
+            sq, ecn = self.iter_seq(p, args[0])
+            return [(p, self.new_list(p, T.sortedby(kw["key"].term, sq), ecn, "sorted"))]
         if name in ("hex", "id", "repr", "str") and len(args) == 1:
             return [(p, VOpaque(name))]
         if name == "set" and not args:
